@@ -29,6 +29,28 @@ def fb(x):
     return "f:%016x" % struct.unpack(">Q", struct.pack(">d", float(x)))[0]
 
 
+def enc(a):
+    """percent-encoding of a node address for the op language (injective; %E = the empty address)"""
+    if a == "":
+        return "%E"
+    return "".join(c if (c.isascii() and (c.isalnum() or c in "._-")) else "".join("%%%02X" % b for b in c.encode()) for c in a)
+
+
+SPECIAL_ADDRS = ["Node-A:8080", "node-a:8080", "NODE-A:8080", " node-a:8080", "node-a:8080 ", "a:1", "A:1", " a:1 ", "\ta:1",
+                 "[::1]:8080", "[2001:DB8::1]:80", "[2001:db8::1]:80", "10.0.0.1:80", "HOST", "host", "Host", " ", "  ", "%41", "%",
+                 "a,b", "[x]", "a=b", "x:C", "É:1", "é:1", "svc.Prod.local:443", "svc.prod.local:443"]
+
+
+def make_addrs(rng, nn):
+    """node addresses of a case: plain n<i>, or (25 %) drawn from an alphabet with mixed case, padding, IPv6 literals,
+    pairs differing only in case / surrounding blanks (different nodes on the unchanged tree), protocol-hostile characters"""
+    if nn and rng.random() < 0.25:
+        pool = rng.sample(SPECIAL_ADDRS, min(nn, len(SPECIAL_ADDRS)))
+        pool += [f"N{i}" for i in range(nn - len(pool))]
+        return [enc(a) for a in pool]
+    return [f"n{i}" for i in range(nn)]
+
+
 def pick_percent(rng, n):
     """MaxEjectionPercent, boundary-heavy; n = intended node count"""
     r = rng.random()
@@ -141,7 +163,7 @@ def gen_recycle_scenario(rng, cid):
            5, thr, rng.choice([1, 1, 2, 0]), rng.choice([0.5, 1.0, 1.0, pick_percent(rng, nn)]), rng.choice([0, 0, 1]))
     ops = [ru.load(rng)]
     now = T0
-    addrs = [f"n{i}" for i in range(nn)]
+    addrs = make_addrs(rng, nn)
     dead = [a for a in addrs if rng.random() < 0.7] or [addrs[0]]
     for a in addrs:
         for _ in range(rng.choice([1, 2])):
@@ -220,7 +242,7 @@ def gen_case(rng, cid, known_region=False):
         rules["s"] = R("s", s2, rng.choice([1, 50, 1000]), 0, 1000, rng.choice([0, 2]), 0, 1.0, rng.choice([0, 1, 2]),
                        pick_percent(rng, nn), rng.choice([0, 1]))
         ops.append(rules["s"].load(rng))
-    addrs = [f"n{i}" for i in range(nn)]
+    addrs = make_addrs(rng, nn)
     # failure profile per node: probability of a bad completion
     prof = {}
     for a in addrs:
@@ -250,6 +272,11 @@ def gen_case(rng, cid, known_region=False):
             o, rt = gen_call(rng, cur, a, rng.random() < prof[a])
             now += rt
             ops.append(o)
+        elif r < 0.745:
+            # a request whose callee address is empty: TraceCallee ignores it, nothing is recorded
+            rt = rng.choice([0, 1, 7])
+            now += rt
+            ops.append(f"call {res} %E {rng.choice(['ok', 'err'])} {rt}")
         elif r < 0.83:
             ops.append(f"probe {res}")
         elif r < 0.84:
